@@ -53,6 +53,9 @@ type input struct {
 	//   not-executable     mode 0644 until the call has returned
 	Observed string `json:"observed,omitempty"` // busy-window only: did the call report a start error ("not-started") or a
 	//                                  result ("started")? the OS decides that race; the oracle allows both (see oracle)
+	// Exe kinds of the class unstartable-executables (files with the x bit under <work>/unstartable that the kernel
+	// refuses to execute, and the valid twin): x-empty | x-text-noshebang | x-garbage | x-elf-junk | x-bad-interp |
+	// x-dir | x-valid-sh
 	exePath string // run-time only: where the fresh script is
 	// Exe "raw": Argv is handed over as it is (a real program such as sh or printf, or words that are empty);
 	// Script then DESCRIBES what that command does (O<hex>/E<hex> literal output, x<code>)
@@ -140,6 +143,29 @@ func prepareDirs() {
 		}
 	}
 	os.RemoveAll(filepath.Join(workDir, "missing"))
+	// executables the kernel refuses (written once; never rewritten while something may be executing them)
+	os.MkdirAll(filepath.Join(workDir, "unstartable"), 0o755)
+	for name, content := range xFiles() {
+		p := xPath(name)
+		if content == nil {
+			os.MkdirAll(p, 0o755)
+			continue
+		}
+		if old, err := os.ReadFile(p); err == nil && string(old) == string(content) {
+			continue
+		}
+		tmp := fmt.Sprintf("%s.tmp%d", p, os.Getpid())
+		syscall.ForkLock.RLock() // no forked child may inherit the write descriptor (go.dev/issue/22315)
+		err := os.WriteFile(tmp, content, 0o755)
+		syscall.ForkLock.RUnlock()
+		if err != nil {
+			panic(err)
+		}
+		os.Chmod(tmp, 0o755)
+		if err := os.Rename(tmp, p); err != nil {
+			panic(err)
+		}
+	}
 	for _, k := range []string{"odd-blank", "odd-unicode", "odd-percent", "odd-bracket", "nowrite"} {
 		if err := os.MkdirAll(dirPath(k), 0o755); err != nil {
 			panic(err)
@@ -194,13 +220,29 @@ func (in input) startable() bool {
 		return hasCopies(in.Dir)
 	case "raw": // a command whose first word is empty cannot be started
 		return len(in.Argv) > 0 && in.Argv[0] != "" && in.Dir != "missing"
-	case "busy-closed-before":
+	case "busy-closed-before", "x-valid-sh":
 		return in.Dir != "missing"
 	case "busy-window":
 		return in.Observed != "not-started"
 	}
 	return false
 }
+
+// the files of the class unstartable-executables: name -> content (nil = a directory)
+func xFiles() map[string][]byte {
+	q := strings.ReplaceAll(childBin, "'", "'\\''")
+	return map[string][]byte{
+		"x-empty":          {},
+		"x-text-noshebang": []byte("echo hi; exit 3\n"), // a valid shell script, but nothing says so: not to be run by a shell
+		"x-garbage":        []byte("\x00\x01\x02 garbage \xff\xfe\n\x00 more garbage\n"),
+		"x-elf-junk":       append([]byte("\x7fELF"), []byte(strings.Repeat("junk\x00\x01", 40))...),
+		"x-bad-interp":     []byte("#!/no/such/interpreter-c14-verif\necho hi\nexit 0\n"),
+		"x-dir":            nil,
+		"x-valid-sh":       []byte("#!/bin/sh\nexec '" + q + "' \"$@\"\n"),
+	}
+}
+
+func xPath(kind string) string { return filepath.Join(workDir, "unstartable", kind) }
 
 func (in input) fresh() bool {
 	switch in.Exe {
@@ -231,6 +273,8 @@ func (in input) args() []string {
 		exe = "./child-copy"
 	case "rel-sub":
 		exe = "sub/child"
+	case "x-empty", "x-text-noshebang", "x-garbage", "x-elf-junk", "x-bad-interp", "x-dir", "x-valid-sh":
+		exe = xPath(in.Exe)
 	case "busy-window", "busy-closed-before", "busy-never-closed", "not-executable", "fresh-run":
 		exe = in.exePath
 		if exe == "" {
@@ -1050,6 +1094,22 @@ func gen(r *lib.Rng, tier string) []gcase {
 	add("empty-words", R, child, inh, "n8", "", "o10", "z3", "", "z6", "x3")
 	add("empty-words", I, child, "plain", "n7", "o100000", "", "e70000", "z4", "")
 	add("empty-words", R, child, inh, "", "n5", "z2", "e5")
+
+	// executable files the kernel refuses to run: the command cannot be started -> an error (no shell is
+	// tried on them); the valid twin with a #!/bin/sh line runs
+	for _, api := range []string{R, I, "RunInspections"} {
+		d := inh
+		if api == "RunInspections" {
+			d = "plain"
+		}
+		for _, x := range []string{"x-empty", "x-text-noshebang", "x-garbage", "x-elf-junk", "x-bad-interp", "x-dir"} {
+			add("unstartable-executables", api, x, d)
+		}
+		add("unstartable-executables-valid-twin", api, "x-valid-sh", d, "o10", "e5", "x0")
+	}
+	add("unstartable-executables", R, "x-empty", "plain", "o10", "x3")
+	add("unstartable-executables", R, "x-text-noshebang", "space", "o10")
+	add("unstartable-executables-valid-twin", R, "x-valid-sh", "space", "o100000", "e70000", "x3")
 
 	// --- random interleavings ---
 	for i := 0; i < nRandom; i++ {
